@@ -131,6 +131,26 @@ def pred_eval(p, row):
     return False
 
 
+def pred_atoms(p):
+    if p[0] in ("and", "or"):
+        return pred_atoms(p[1]) + pred_atoms(p[2])
+    if p[0] == "not":
+        return pred_atoms(p[1])
+    return [p]
+
+
+def safe_under_not(p):
+    """A compound predicate may stand under NOT only if no open C01 expression rule can change its
+    VALUE (not just its filter effect): comparison atoms on pairwise distinct columns (no range pair
+    for `and-gt-lt-conflict`, also after NOT is pushed through AND/OR) and at most one (in)equality
+    (`eq-trans` needs two)."""
+    if p[0] not in ("and", "or", "not"):
+        return True
+    cmps = [a for a in pred_atoms(p) if a[0] == "cmp"]
+    cols = [a[1] for a in cmps]
+    return len(cols) == len(set(cols)) and sum(1 for a in cmps if a[2] in ("eq", "ne")) <= 1
+
+
 class Gen:
     def __init__(self, seed, profile="c07"):
         self.r = random.Random(seed)
@@ -189,9 +209,17 @@ class Gen:
         if depth < 2 and x < 0.25:
             return (r.choice(["and", "or"]), self.gen_pred(d, depth + 1, avoid_pk), self.gen_pred(d, depth + 1, avoid_pk))
         if depth < 2 and x < 0.3:
-            # NOT over compound predicates too (`not ((b < -2) and (b > 2))` used to delete rows whose b
-            # is NULL: NULL-unsound simplification rules, removed by repository commit 9930474)
-            return ("not", self.gen_pred(d, depth + 1, avoid_pk))
+            # NOT over compound predicates too (NULL-unsound simplification rules were removed by
+            # repository commit 9930474), EXCEPT the shapes of the expression rules that C01 still records
+            # as open (known_findings/C01.json: `and-gt-lt-conflict` folds `x > a and x < b`, a >= b, to
+            # false although it is NULL for NULL x; `eq-trans`): as a filter NULL and false select the same
+            # rows, under a NOT they do not (thorough tier, round 6: `insert .. select .. where not ((b > 2)
+            # and (b < 1))` copies the NULL row on both engines).  The optimizer's defect, C01's subject:
+            # kept out of the storage checks.
+            p = self.gen_pred(d, depth + 1, avoid_pk)
+            if not safe_under_not(p):
+                p = self.gen_pred(d, 2, avoid_pk)
+            return ("not", p)
         i = r.choice(cand)
         ty = d.cols[i][1]
         if x < 0.4:
